@@ -1,5 +1,7 @@
-(* C12/Refuted.v -- the full statements fail on the faithful model exactly inside the known findings'
-   regions: machine-checked witnesses (each is replayed on the real code by the harness). *)
+(* C12/Refuted.v -- (1) the full statement still fails on the faithful model inside the region of the one
+   finding that is kept (unsigned values reinterpreted as signed): machine-checked witnesses, replayed on
+   the real code by the harness; (2) regression facts: the inputs of the findings that were repaired in
+   /repo, evaluated on the model of the repaired code (the pre-fix outputs are quoted in the comments). *)
 From GocqlV Require Import Lib.Base Gen.Consts C12.Model C12.Spec C12.Denote.
 
 Local Open Scope Z_scope.
@@ -8,64 +10,7 @@ Local Open Scope Z_scope.
 Definition full_statement (pv : Z) (ty : cqlty) (g : gval) : Prop :=
   forall ob ox, marshal pv ty g = Ok ob -> denote ty g = Some ox -> encode_opt pv ty ox = Some ob.
 
-(* F-C12-1: big.Int 5 into bigint is one byte; the specification says eight *)
-Theorem bigint_bigInt_minimal_refuted : exists g, ~ full_statement 4 (TNative Id.bigint) g
-  /\ marshal 4 (TNative Id.bigint) g = Ok (Some [5])
-  /\ encode_opt 4 (TNative Id.bigint) (Some (VInt 5)) = Some (Some [0; 0; 0; 0; 0; 0; 0; 5])
-  /\ unmarshal 4 (TNative Id.bigint) (Some [5]) (YInt I64 false) = Ok (GInt I64 false 0).
-Proof.
-  exists (GBig 5). split; [|repeat split; vm_compute; reflexivity].
-  intros H. specialize (H (Some [5]) (Some (VInt 5)) eq_refl eq_refl). vm_compute in H. discriminate.
-Qed.
-
-(* F-C12-2: a defined int64 type into duration is 8 raw bytes *)
-Theorem duration_named_int64_refuted : exists g, ~ full_statement 5 (TNative Id.duration) g
-  /\ marshal 5 (TNative Id.duration) g = Ok (Some [0; 0; 0; 0; 0; 0; 0; 1])
-  /\ encode_opt 5 (TNative Id.duration) (Some (VDuration 0 0 1)) = Some (Some [0; 0; 2]).
-Proof.
-  exists (GInt I64 true 1). split; [|split; vm_compute; reflexivity].
-  intros H. specialize (H _ _ eq_refl eq_refl). vm_compute in H. discriminate.
-Qed.
-
-(* F-C12-3: 1969-12-31T23:00:00Z is written as day 2^31 (1970-01-01) *)
-Theorem date_pre_epoch_refuted : exists g, ~ full_statement 4 (TNative Id.date) g
-  /\ marshal 4 (TNative Id.date) g = Ok (Some [128; 0; 0; 0])
-  /\ denote (TNative Id.date) g = Some (Some (VInt (-1)))
-  /\ encode_opt 4 (TNative Id.date) (Some (VInt (-1))) = Some (Some [127; 255; 255; 255]).
-Proof.
-  exists (GTime (-3600) 0). split; [|repeat split; vm_compute; reflexivity].
-  intros H. specialize (H _ _ eq_refl eq_refl). vm_compute in H. discriminate.
-Qed.
-
-(* day numbers outside 32 bits wrap silently: 2^31 days after the epoch becomes day 0 *)
-Theorem date_out_of_range_refuted : exists g, ~ full_statement 4 (TNative Id.date) g
-  /\ marshal 4 (TNative Id.date) g = Ok (Some [0; 0; 0; 0])
-  /\ denote (TNative Id.date) g = Some (Some (VInt (2 ^ 31)))
-  /\ encode_opt 4 (TNative Id.date) (Some (VInt (2 ^ 31))) = None.
-Proof.
-  exists (GInt I64 false (2 ^ 31 * 86400000)). split; [|repeat split; vm_compute; reflexivity].
-  intros H. specialize (H _ _ eq_refl eq_refl). vm_compute in H. discriminate.
-Qed.
-
-(* F-C12-4: a typed nil pointer, or a nil []byte, inside a []interface{} tuple is written with length 0 *)
-Theorem tuple_typed_nil_refuted : exists g, ~ full_statement 4 (TTuple [TNative Id.int]) g
-  /\ marshal 4 (TTuple [TNative Id.int]) g = Ok (Some [0; 0; 0; 0])
-  /\ denote (TTuple [TNative Id.int]) g = Some (Some (VTuple [None]))
-  /\ encode_opt 4 (TTuple [TNative Id.int]) (Some (VTuple [None])) = Some (Some [255; 255; 255; 255]).
-Proof.
-  exists (GIfaces [GPtr None]). split; [|repeat split; vm_compute; reflexivity].
-  intros H. specialize (H _ _ eq_refl eq_refl). vm_compute in H. discriminate.
-Qed.
-
-Theorem tuple_nil_slice_refuted : exists g, ~ full_statement 4 (TTuple [TNative Id.blob]) g
-  /\ marshal 4 (TTuple [TNative Id.blob]) g = Ok (Some [0; 0; 0; 0])
-  /\ denote (TTuple [TNative Id.blob]) g = Some (Some (VTuple [None])).
-Proof.
-  exists (GIfaces [GBytes false None]). split; [|split; vm_compute; reflexivity].
-  intros H. specialize (H _ _ eq_refl eq_refl). vm_compute in H. discriminate.
-Qed.
-
-(* F-C02-1: uint8 200 into tinyint is accepted and written as c8 = -56 *)
+(* ---- open: F-C02-1, uint8 200 into tinyint is accepted and written as c8 = -56 ------------------------------ *)
 Theorem unsigned_wrap_refuted : exists g, ~ full_statement 4 (TNative Id.tinyint) g
   /\ marshal 4 (TNative Id.tinyint) g = Ok (Some [200])
   /\ denote (TNative Id.tinyint) g = Some (Some (VInt 200))
@@ -83,18 +28,53 @@ Theorem unsigned_decode_refuted :
   /\ denote (TNative Id.tinyint) (GInt U8 false 255) = Some (Some (VInt 255)).
 Proof. repeat split; vm_compute; reflexivity. Qed.
 
-(* an untyped nil for a tuple column panics instead of giving null *)
-Theorem tuple_untyped_nil_panics_refuted :
-  marshal 4 (TTuple [TNative Id.int]) GNil = Panic /\ denote (TTuple [TNative Id.int]) GNil = Some None
-  /\ marshal 4 (TList (TTuple [TNative Id.int])) (GIfaces [GNil]) = Panic.
+(* open (kept, explicit error): null into an array target *)
+Theorem null_into_array_refuted :
+  unmarshal 4 (TList (TNative Id.int)) None (YArray 0 (YInt IInt false)) = Err
+  /\ unmarshal 4 (TList (TNative Id.int)) None (YSlice (YInt IInt false)) = Ok (GSlice None).
+Proof. split; vm_compute; reflexivity. Qed.
+
+(* ---- repaired (regression facts on the model of the repaired code) -------------------------------------------- *)
+(* F-C12-1: big.Int 5 into bigint was 05; a value outside int64 was accepted *)
+Example fixed_bigint_bigInt :
+  marshal 4 (TNative Id.bigint) (GBig 5) = Ok (Some [0; 0; 0; 0; 0; 0; 0; 5])
+  /\ marshal 4 (TNative Id.bigint) (GBig (2 ^ 70)) = Err
+  /\ marshal 4 (TNative Id.varint) (GBig (2 ^ 70)) = Ok (Some [64; 0; 0; 0; 0; 0; 0; 0; 0]).
 Proof. repeat split; vm_compute; reflexivity. Qed.
 
-(* null into a non-pointer target is an error for these pairs *)
-Theorem null_rejected_refuted :
-  unmarshal 4 (TNative Id.decimal) None YDec = Err
-  /\ unmarshal 4 (TNative Id.inet) None YIP = Err
-  /\ unmarshal 4 (TNative Id.uuid) None YArr16 = Err
-  /\ unmarshal 4 (TNative Id.timeuuid) None YTime = Err
-  /\ unmarshal 4 (TList (TNative Id.int)) None (YArray 0 (YInt IInt false)) = Err
-  /\ unmarshal 4 (TNative Id.int) None (YInt IInt false) = Ok (GInt IInt false 0).
+(* F-C12-2: a defined int64 type into duration was 00 00 00 00 00 00 00 01 *)
+Example fixed_duration_named_int64 : marshal 5 (TNative Id.duration) (GInt I64 true 1) = Ok (Some [0; 0; 2]).
+Proof. vm_compute. reflexivity. Qed.
+
+(* F-C12-3: 1969-12-31T23:00:00Z was 80 00 00 00; day numbers outside 32 bits wrapped (2^31 days -> 00 00 00 00) *)
+Example fixed_date :
+  marshal 4 (TNative Id.date) (GTime (-3600) 0) = Ok (Some [127; 255; 255; 255])
+  /\ marshal 4 (TNative Id.date) (GInt I64 false (-1)) = Ok (Some [127; 255; 255; 255])
+  /\ marshal 4 (TNative Id.date) (GInt I64 false (2 ^ 31 * 86400000)) = Err
+  /\ marshal 4 (TNative Id.date) (GInt I64 false (2 ^ 31 * 86400000 - 1)) = Ok (Some [255; 255; 255; 255])
+  /\ marshal 4 (TNative Id.date) (GInt I64 false (- 2 ^ 31 * 86400000)) = Ok (Some [0; 0; 0; 0])
+  /\ marshal 4 (TNative Id.date) (GInt I64 false (- 2 ^ 31 * 86400000 - 1)) = Err.
+Proof. repeat split; vm_compute; reflexivity. Qed.
+
+(* F-C12-4: a typed nil pointer / nil []byte inside a tuple was written with length 0 *)
+Example fixed_tuple_null_component :
+  marshal 4 (TTuple [TNative Id.int]) (GIfaces [GPtr None]) = Ok (Some [255; 255; 255; 255])
+  /\ marshal 4 (TTuple [TNative Id.blob]) (GIfaces [GBytes false None]) = Ok (Some [255; 255; 255; 255])
+  /\ marshal 4 (TTuple [TNative Id.blob]) (GIfaces [GBytes false (Some [])]) = Ok (Some [0; 0; 0; 0])
+  /\ marshal 4 (TTuple [TNative Id.int]) (GStruct [([70], [], GPtr (Some (GPtr None)))]) = Ok (Some [255; 255; 255; 255]).
+Proof. repeat split; vm_compute; reflexivity. Qed.
+
+(* an untyped nil for a tuple column panicked *)
+Example fixed_tuple_untyped_nil :
+  marshal 4 (TTuple [TNative Id.int]) GNil = Ok None
+  /\ marshal 4 (TList (TTuple [TNative Id.int])) (GIfaces [GNil]) = Ok (Some [0; 0; 0; 1; 255; 255; 255; 255]).
+Proof. split; vm_compute; reflexivity. Qed.
+
+(* null into these value targets was an error *)
+Example fixed_null_into_value_targets :
+  unmarshal 4 (TNative Id.decimal) None YDec = Ok (GDec 0 0)
+  /\ unmarshal 4 (TNative Id.inet) None YIP = Ok (GIP [])
+  /\ unmarshal 4 (TNative Id.uuid) None YArr16 = Ok (GArr16 zeros16)
+  /\ unmarshal 4 (TNative Id.timeuuid) None YTime = Ok (GTime zero_time_sec 0)
+  /\ unmarshal 4 (TNative Id.decimal) (Some [0; 0; 0]) YDec = Err.
 Proof. repeat split; vm_compute; reflexivity. Qed.
